@@ -418,6 +418,25 @@ func genTreePatterns(t *rapid.T, files []TreeFile) (string, string) {
 	if rapid.IntRange(0, 11).Draw(t, "srcNoMatch") == 0 {
 		src = "zzz*.wsp"
 	}
+	if rapid.IntRange(0, 5).Draw(t, "dirPartInSrc") == 0 {
+		// the file pattern is a glob relative to the item directory and may have a directory part of its own
+		var alts [][2]string
+		for _, f := range files {
+			switch {
+			case strings.HasPrefix(f.Dir, "grp/"):
+				alts = append(alts, [2]string{"grp", "*/" + src}, [2]string{"grp", strings.TrimPrefix(f.Dir, "grp/") + "/" + src}, [2]string{"g*", "[ab]/" + src})
+			case strings.HasPrefix(f.Dir, "deep/"):
+				parts := strings.Split(f.Dir, "/")
+				if len(parts) >= 3 {
+					alts = append(alts, [2]string{strings.Join(parts[:2], "/"), strings.Join(parts[2:], "/") + "/" + src}, [2]string{"deep", "*/*/" + src}, [2]string{"deep/*", "?/" + src})
+				}
+			}
+		}
+		if len(alts) > 0 {
+			a := rapid.SampledFrom(alts).Draw(t, "dirPartPattern")
+			return a[0], a[1]
+		}
+	}
 	return item, src
 }
 
